@@ -243,3 +243,210 @@ class LinkUsing(FnContract):
 
 
 CONTRACTS = [PixelToWorldSingle(), WorldToPixelSingle(), LinkUsing()]
+
+
+# =================================================================================================
+COMP = "glue/core/component.py"
+
+
+class CalculateWorld(FnContract):
+    """CoordinateComponent._calculate for views made of integers and slices: per-axis pixel positions, the single-axis conversion on the
+    dependent axes only, removal of the integer axes and broadcasting to the shape of the view."""
+    property_ids = ('C15', 'C04')
+    target = COMP + ":CoordinateComponent._calculate"
+    title = ("for a view of integers and slices (any steps, negative bounds, short tuples) the value at output position q is the world coordinate of the pixel "
+             "the view selects there (slice start + step * q, integers counted from the end when negative), and the shape is the shape of the view")
+    budget_s = 60
+
+    # per data axis: 's' unit slice, 'p' step 2, 'r' step -1, 'i' integer, 'a' absent
+    def configs(self, tier):
+        views = ['s', 'p', 'r', 'i', 'ss', 'si', 'is', 'sa', 'pr', 'ii', 'sss', 'sis', 'iss', 'ssa', 'saa', 'rip', 'iis']
+        out = []
+        for v in views:
+            for w in range(len(v)):
+                if tier == 'quick' and len(v) == 3 and w == 1:
+                    continue
+                out.append(dict(view=v, world=w))
+        out.append(dict(view='bare-slice', world=0))
+        out.append(dict(view='bare-int', world=0))
+        return out
+
+    def inputs(self, cfg, P):
+        v = cfg['view']
+        bare = v.startswith('bare')
+        if bare:
+            v = 's' if v == 'bare-slice' else 'i'
+        d = len(v)
+        shape = tuple(z3.Int('n%d' % i) for i in range(d))
+        entries, q = [], []
+        for i, c in enumerate(v):
+            if c in 'spr':
+                entries.append(PSlice(z3.Int('start%d' % i), z3.Int('stop%d' % i), {'s': None, 'p': 2, 'r': -1}[c]))
+            elif c == 'i':
+                entries.append(z3.Int('index%d' % i))
+            else:
+                break
+        view = entries[0] if bare else tuple(entries)
+        # arbitrary output position: one coordinate per axis that survives (slices and absent axes)
+        qs = {i: z3.Int('q%d' % i) for i, c in enumerate(v) if c != 'i'}
+        dep = [z3.Bool('dependent%d' % i) for i in range(d)]
+        Wd = z3.Function('world_component', *([z3.IntSort()] * d + [z3.RealSort()]))
+
+        def W(*vals):
+            # soundness of dependent_axes (C15, evaluated exhaustively) built into the model: the world axis is a function of the pixel axes
+            # inside the returned set only, so whatever stands in for the other axes does not matter
+            return Wd(*[z3.If(dp, z3.ToInt(x) if (is_z3(x) and x.sort() == z3.RealSort()) else x, 0) for dp, x in zip(dep, vals)])
+        coords = PObj('coords')
+        data = PObj('Data', fields={'ndim': d, 'shape': shape, 'coords': coords})
+        comp = PObj('CoordinateComponent', fields={'world': True, '_data': data, 'axis': cfg['world']})
+        st = St(v=v, d=d, shape=shape, entries=entries, view=view, qs=qs, dep=dep, W=W, coords=coords, data=data, calls=[], bare=bare)
+        return Inputs([comp], dict(view=view), st=st)
+
+    def _true_pixels(self, st):
+        """the pixel the view selects at output position q, per data axis, and the length of the view along the surviving axes"""
+        pix, lens = [], {}
+        for i, c in enumerate(st.v):
+            n = st.shape[i]
+            if c in 'spr':
+                e = st.entries[i]
+                b, en, stp = S.slice_indices(e, n)
+                lens[i] = S.range_len(b, en, stp)
+                pix.append(b + stp * st.qs[i])
+            elif c == 'i':
+                k = st.entries[i]
+                pix.append(z3.If(k < 0, k + n, k))
+            else:
+                lens[i] = n
+                pix.append(st.qs[i])
+        return pix, lens
+
+    def requires(self, cfg, st):
+        pix, lens = self._true_pixels(st)
+        r = [('extents>=1', S.And(*[n >= 1 for n in st.shape]))]
+        for i, c in enumerate(st.v):
+            if c == 'i':
+                r.append(('index-%d-valid' % i, S.And(-st.shape[i] <= st.entries[i], st.entries[i] < st.shape[i])))
+            else:
+                r.append(('output-position-%d-inside-the-view' % i, S.And(0 <= st.qs[i], st.qs[i] < lens[i])))
+        return r
+
+    def globals_(self, cfg, st):
+        d = st.d
+
+        class Seq(PObj):
+            """np.arange(n) and what indexing it gives: start + step * position, `length` elements"""
+
+        def seq(start, step, length):
+            s_ = Seq('index-sequence', fields={'start': start, 'step': step, 'length': length})
+
+            def getitem(I, self_, key):
+                if isinstance(key, PSlice):
+                    b, en, stp = S.slice_indices(key, self_.fields['length'])
+                    return seq(self_.fields['start'] + self_.fields['step'] * b, self_.fields['step'] * stp, S.range_len(b, en, stp))
+                if is_z3(key) or isinstance(key, int):
+                    n = self_.fields['length']
+                    if not I.path.branch(S.And(-n <= key, key < n)):
+                        from pyvc.values import PyRaise, ExcVal
+                        raise PyRaise(ExcVal('IndexError'))
+                    k = z3.If(key < 0, key + n, key) if is_z3(key) else (key + n if key < 0 else key)
+                    return self_.fields['start'] + self_.fields['step'] * k          # a scalar
+                raise Unsupported("indexing a pixel sequence with %r" % (key,))
+            s_.methods['__getitem__'] = getitem
+            s_.methods['__len__'] = lambda I, self_: self_.fields['length']
+            return s_
+
+        def arange(I, n):
+            return seq(0, 1, n)
+
+        def isscalar(I, x):
+            return is_z3(x) or isinstance(x, int)
+
+        def b_isinstance(I, x, t):
+            ts = t if isinstance(t, tuple) else (t,)
+            for y in ts:
+                nm = getattr(y, 'name', None)
+                if nm == 'slice' and isinstance(x, PSlice):
+                    return True
+                if nm in ('tuple',) and isinstance(x, tuple):
+                    return True
+                if nm in ('list',) and isinstance(x, PList):
+                    return True
+                if nm == 'ndarray':
+                    return False
+            return False
+
+        def dep_axes(I, coords, axis):
+            I.path.check(I.hooks.name + "/dependent_axes:asked-for-this-world-axis", coords is st.coords and axis == cfg['world'])
+            o = PObj('dependent-axes')
+            o.methods['__contains__'] = lambda I2, s, i: st.dep[i]
+            return o
+
+        def meshgrid(I, *seqs, **kw):
+            I.path.check(I.hooks.name + "/meshgrid:ij-indexing-one-input-per-axis", kw.get('indexing') == 'ij' and len(seqs) == d)
+            # grid i at output position q has the value of input i at its own position (integers / constants: the value itself)
+            return PList([PObj('grid', fields={'axis': i, 'of': s_}) for i, s_ in enumerate(seqs)])
+
+        def value_of(g):
+            s_ = g.fields['of']
+            i = g.fields['axis']
+            if isinstance(s_, Seq):
+                return s_.fields['start'] + s_.fields['step'] * st.qs[i], s_.fields['length']
+            return s_, None                      # scalar: size-1 axis
+
+        def p2w(I, coords, *grids, **kw):
+            st.calls.append((coords, grids, kw))
+            gs = grids[::-1]                      # back to numpy order
+            vals, lens = [], []
+            for g in gs:
+                v_, l_ = value_of(g)
+                vals.append(v_)
+                lens.append(l_)
+            return PObj('world-array', fields={'value': st.W(*vals), 'lens': lens, 'sliced': None})
+
+        def w_getitem(I, self_, key):
+            return PObj('world-array', fields={'value': self_.fields['value'], 'lens': self_.fields['lens'], 'sliced': key})
+
+        def broadcast_to(I, a, shp):
+            return PObj('result', fields={'of': a, 'shape': shp})
+        g = {'numpy.arange': Builtin('np.arange', arange), 'numpy.isscalar': Builtin('np.isscalar', isscalar), 'isinstance': Builtin('isinstance', b_isinstance),
+             'dependent_axes': Builtin('dependent_axes', dep_axes), 'numpy.meshgrid': Builtin('np.meshgrid', meshgrid),
+             'pixel2world_single_axis': Builtin('pixel2world_single_axis', p2w), 'numpy.broadcast_to': Builtin('np.broadcast_to', broadcast_to),
+             'numpy.ndarray': PType('ndarray'), 'slice': PType('slice'), 'tuple': PType('tuple'), 'list': PType('list')}
+        st.w_getitem = w_getitem
+        return g
+
+    def ensures(self, cfg, st, result):
+        pix, lens = self._true_pixels(st)
+        ok = isinstance(result, PObj) and result.cls == 'result' and isinstance(result.fields['of'], PObj) and result.fields['of'].cls == 'world-array'
+        if not ok:
+            return [('returns-the-broadcast-world-array', False)]
+        wa = result.fields['of']
+        out = [('single-axis-conversion-called-once-in-xyz-order-for-this-world-axis',
+                len(st.calls) == 1 and st.calls[0][0] is st.coords and st.calls[0][2] == {'world_axis': st.d - 1 - cfg['world']}),
+               ('value-at-q-is-the-world-coordinate-of-the-selected-pixel', wa.fields['value'] == st.W(*pix))]
+        # shape: one entry per surviving axis = length of the view there
+        shp = result.fields['shape']
+        items = list(shp) if isinstance(shp, tuple) else (shp.items if isinstance(shp, PList) else None)
+        surv = [i for i, c in enumerate(st.v) if c != 'i']
+        out.append(('shape-is-the-shape-of-the-view', items is not None and len(items) == len(surv) and S.And(*[x == lens[i] for x, i in zip(items, surv)])))
+        # the integer axes are removed by indexing position 0 of their size-1 axis, all other axes are kept whole
+        key = wa.fields['sliced']
+        okk = isinstance(key, tuple) and len(key) == st.d and all((k == 0 and not isinstance(k, PSlice)) if c == 'i' else (isinstance(k, PSlice) and k.start is None and k.stop is None and k.step is None)
+                                                                 for k, c in zip(key, st.v))
+        out.append(('integer-axes-dropped-others-kept', okk))
+        return out
+
+
+from pyvc.interp import Interp as _I15
+_prev_getitem15 = _I15.getitem
+
+
+def _getitem15(self, obj, idx):
+    if isinstance(obj, PObj) and obj.cls == 'world-array' and 'sliced' in obj.fields:
+        return PObj('world-array', fields={'value': obj.fields['value'], 'lens': obj.fields['lens'], 'sliced': idx})
+    return _prev_getitem15(self, obj, idx)
+
+
+_I15.getitem = _getitem15
+
+CONTRACTS.append(CalculateWorld())
